@@ -140,10 +140,10 @@ def check_props_file(prop, tier):
                 res['open'].append(name + ' depends on ' + ','.join(sorted(axioms)))
     res['ok'] = res['discharged'] == res['obligations'] and res['obligations'] > 0
     if tier == 'thorough' and res['ok']:
-        rc, out = sh('cd %s/coq && timeout 1800 coqchk -silent -o -Q Model Model -Q Proofs Proofs -Q Props Props -Q gen Gen -Q Tie Tie Props.%s 2>&1 | tail -30'
+        rc, out = sh('cd %s/coq && timeout 2400 coqchk -o -Q Model Model -Q Proofs Proofs -Q Props Props -Q gen Gen -Q Tie Tie Props.%s 2>&1'
                      % (VERIF, prop))
-        res['coqchk'] = out[-2500:]
-        if 'Modules were successfully checked' not in out:
+        res['coqchk'] = out[-900:]
+        if rc != 0 or 'Modules were successfully checked' not in out or '* Axioms: <none>' not in out:
             res['ok'] = False
             res['open'].append('coqchk did not accept Props.%s' % prop)
     return res
